@@ -440,6 +440,47 @@ pub fn exec_line(sess: &mut Session, line: &str) -> String {
             let (e, _) = E::parse(&toks[1..]).unwrap();
             hex_of_str(&e.to_msi().to_string())
         }
+        "fmtq" => match toks[1] {
+            "select" => {
+                let (q, _) = crate::session::parse_select(&toks[2..]).unwrap();
+                hex_of_str(&q.to_string())
+            }
+            "insert" => {
+                let t = str_of_hex(toks[2]).unwrap();
+                let k: usize = toks[3].parse().unwrap();
+                let mut pos = 4;
+                let mut q = msi::Insert::into(t);
+                for _ in 0..k {
+                    let n: usize = toks[pos].parse().unwrap();
+                    let vals: Vec<msi::Value> =
+                        toks[pos + 1..pos + 1 + n].iter().map(|v| V::parse(v).unwrap().to_msi()).collect();
+                    pos += 1 + n;
+                    q = q.row(vals);
+                }
+                hex_of_str(&q.to_string())
+            }
+            "update" => {
+                let t = str_of_hex(toks[2]).unwrap();
+                let k: usize = toks[3].parse().unwrap();
+                let mut q = msi::Update::table(t);
+                for i in 0..k {
+                    q = q.set(str_of_hex(toks[4 + 2 * i]).unwrap(), V::parse(toks[5 + 2 * i]).unwrap().to_msi());
+                }
+                let (cond, _) = parse_cond(&toks[4 + 2 * k..]).unwrap();
+                if let Some(e) = cond {
+                    q = q.with(e.to_msi());
+                }
+                hex_of_str(&q.to_string())
+            }
+            _ => {
+                let mut q = msi::Delete::from(str_of_hex(toks[2]).unwrap());
+                let (cond, _) = parse_cond(&toks[3..]).unwrap();
+                if let Some(e) = cond {
+                    q = q.with(e.to_msi());
+                }
+                hex_of_str(&q.to_string())
+            }
+        },
         "validate" => {
             let cat = cat_by_name(toks[1]).unwrap().1;
             let st = str_of_hex(toks[2]).unwrap();
